@@ -1,6 +1,7 @@
 // Native replay for ElectricField and the impedance models: real classes vs naive double-precision DFT oracle.
 // usage: ef_replay wake <N> <nb_buckets_pattern e.g. 101> <spacing> <nmax> <seed>
 //        ef_replay z <n>
+//        ef_replay factory <n> <gap> <use_csr> <s> <xi> <inner_radius> <file 0|1> <R_bend> <frev>
 // exit 0 agree, 1 mismatch, 3 usage
 #include <cstdio>
 #include <cstdlib>
@@ -16,6 +17,9 @@
 #include "Z/ConstImpedance.cpp"
 #include "Z/FreeSpaceCSR.cpp"
 #include "Z/ResistiveWall.cpp"
+#include "Z/ParallelPlatesCSR.cpp"
+#include "Z/CollimatorImpedance.cpp"
+#include "Z/ImpedanceFactory.cpp"
 #include "FFTWWrapper.cpp"
 #include "HelperFunctions.cpp"
 #include "IO/FSPath.cpp"
@@ -49,6 +53,32 @@ int main(int argc, char** argv) {
         Impedance sum(n, 1e12); sum += FreeSpaceCSR(n, 9e6, 1e12); sum += ResistiveWall(n, 9e6, 1e12, 33.0, 1e6, 0.0, 0.015);
         chk("sum", sum);
         printf("z: %d mismatches (n=%zu)\n", bad, n);
+        return bad ? 1 : 0;
+    }
+    if (mode == "factory" && argc == 11) {
+        // oracle taken from the statement of C16: the factory returns the sum of the selected contributions, nothing when none is selected
+        size_t n = atoi(argv[2]); double gap = atof(argv[3]); bool csr = atoi(argv[4]); double s = atof(argv[5]), xi = atof(argv[6]), inner = atof(argv[7]);
+        bool file = atoi(argv[8]); double R = atof(argv[9]), frev = atof(argv[10]); const double fmax = 1e12, c = 299792458.0;
+        std::string fname = "";
+        if (file) { fname = "/tmp/vf_factory_replay.dat"; FILE* f = fopen(fname.c_str(), "w"); for (int i = 0; i < 5; i++) fprintf(f, "%d %g %g\n", i, 10.0 + i, -1.0 * i); fclose(f); }
+        auto got = makeImpedance(n, nullptr, fmax, R, frev, gap, csr, s, xi, inner, fname);
+        std::vector<cd> want(n, 0.0); bool any = false;
+        auto add = [&](const Impedance& z) { any = true; for (size_t i = 0; i < n && i < z.size(); i++) want[i] += cd(z[i].real(), z[i].imag()); };
+        const double f0 = c / (2 * M_PI * R), radius = std::fabs(gap / 2);
+        if (gap != 0) {
+            if (csr && gap > 0) add(ParallelPlatesCSR(n, f0, fmax, gap));
+            if (csr && gap < 0) add(FreeSpaceCSR(n, f0, fmax));
+            if (s > 0 && xi >= -1) add(ResistiveWall(n, frev, fmax, c / frev, s, xi, radius));
+            if (0 < inner && inner < radius) add(CollimatorImpedance(n, fmax, radius, inner));
+        }
+        if (file) add(Impedance(fname, fmax));
+        if (any != (got != nullptr)) { printf("MISMATCH factory returned %s although %s contribution is selected\n", got ? "an impedance" : "nothing", any ? "a" : "no"); bad++; }
+        if (got && any) {
+            if (got->size() != n) { printf("MISMATCH factory size %zu expected %zu\n", got->size(), n); bad++; }
+            double scale = 0; for (size_t i = 0; i < n; i++) scale = std::max(scale, std::abs(want[i]));
+            for (size_t i = 0; i < n && i < got->size(); i++) { impedance_t v = (*got)[i];
+                cmp("factory.re", 0, (int)i, v.real(), want[i].real(), 1e-5, scale + 1e-30); cmp("factory.im", 0, (int)i, v.imag(), want[i].imag(), 1e-5, scale + 1e-30); } }
+        printf("factory: %d mismatches (n=%zu gap=%g csr=%d s=%g xi=%g inner=%g file=%d R=%g frev=%g)\n", bad, n, gap, (int)csr, s, xi, inner, (int)file, R, frev);
         return bad ? 1 : 0;
     }
     if (mode == "wake" && argc == 7) {
